@@ -17,6 +17,7 @@ from ..core import Violation
 from ..gen import prob
 from ..observe import Outcome, run_async, run_sync
 from ..sched import run_many_scheduled
+from ..observe import arun as _arun
 
 ID = "C18"
 LEVEL = "exploration"
@@ -261,7 +262,7 @@ class State:
 
         kw = {"map_over": mapped, "clone": bool(op["clone"])}
         try:
-            res = asyncio.run(self.asyn.map(pr.graph, vals, **kw)) if op["async"] else self.sync.map(pr.graph, vals, **kw)
+            res = _arun(self.asyn.map(pr.graph, vals, **kw)) if op["async"] else self.sync.map(pr.graph, vals, **kw)
         except Exception as e:  # noqa: BLE001
             raise Violation("c18.map_raised", f"[map over {mapped} clone={op['clone']}] raised {type(e).__name__}: {str(e)[:200]}") from None
         tag = f"{'async' if op['async'] else 'sync'} map over {mapped} clone={bool(op['clone'])} variant {op['variant']}"
@@ -301,7 +302,7 @@ class State:
 
         try:
             if op["async"]:
-                res = asyncio.run(self.asyn.run(pr.graph, base, **{kwname: vals[kwname]}))
+                res = _arun(self.asyn.run(pr.graph, base, **{kwname: vals[kwname]}))
             else:
                 res = self.sync.run(pr.graph, base, **{kwname: vals[kwname]})
             out = Outcome(res.status.value, dict(res.values), res.error, res.pause, res)
